@@ -44,4 +44,17 @@ def take (s : St) (i : Nat) : St × Option (Nat × List Nat) :=
   | some (some b) => ({ s with slots := s.slots.set i none, taken := b :: s.taken }, some (b, s.bufs b))
   | _ => (s, none)
 
+inductive Op
+  | read (pkts : List (List Nat))
+  | take (i : Nat)
+  deriving DecidableEq, Repr
+
+def step (s : St) : Op → St
+  | .read pkts => readBatch s pkts
+  | .take i => (take s i).1
+
+def run : St → List Op → St
+  | s, [] => s
+  | s, op :: ops => run (step s op) ops
+
 end DaeVerif.C13.Batch
